@@ -409,7 +409,7 @@ fn judge_after(scn: &Scenario, home: &Path, cons: &Path) -> Option<(String, Stri
 }
 
 /// The sub-batch run by `simctl c30`: returns (runs, violations as (clause, detail, replay json), probes).
-pub fn batch(scn: &Scenario, base: &Path, seed: u64, n: usize, workers: usize) -> (usize, Vec<(String, String, Value)>, BTreeMap<String, usize>) {
+pub fn batch(scn: &Scenario, base: &Path, seed: u64, n: usize, workers: usize) -> (usize, Vec<(String, String, Value)>, BTreeMap<String, usize>, Vec<String>) {
     let results = par_map(workers, n, |i| {
         let sub = derive(seed, "c30-two", i as u64);
         let mut r = Rng::new(sub);
@@ -507,7 +507,7 @@ pub fn batch(scn: &Scenario, base: &Path, seed: u64, n: usize, workers: usize) -
     if let Ok(t) = std::env::var("C30TWO_HASHES") {
         let _ = std::fs::write(t, hashes.join("\n"));
     }
-    (n, viol, probes)
+    (n, viol, probes, hashes)
 }
 
 pub fn replay(scn: &Scenario, base: &Path, v: &Value) -> Option<(String, String)> {
